@@ -828,10 +828,14 @@ class spawn(SpawnBase):
         if self.encoding is not None:
             # In unicode mode the log files get text, like everywhere else.
             # Each direction is decoded incrementally, as a character may be
-            # split across two reads.
-            decoder = codecs.getincrementaldecoder(self.encoding)
-            log_read = decoder('replace').decode
-            log_send = decoder('replace').decode
+            # split across two reads (or even two calls of interact()).
+            decoders = getattr(self, '_interact_log_decoders', None)
+            if decoders is None:
+                decoder = codecs.getincrementaldecoder(self.encoding)
+                decoders = (decoder('replace'), decoder('replace'))
+                self._interact_log_decoders = decoders
+            log_read = decoders[0].decode
+            log_send = decoders[1].decode
         else:
             log_read = log_send = lambda data: data
 
